@@ -1,7 +1,319 @@
-//! C05 — stub (monitor not built yet)
-use crate::run::{Ctx, Report, Stats};
-pub fn run(_ctx: &Ctx) -> Report {
-    let mut r = Report::new(Stats::default(), "not built");
-    r.inconclusive.push("monitor-not-built".into());
-    r
+//! C05 — tridiagonal matrix of any size equals its dense twin; solve is exact or refuses.
+use crate::fl::{self, U};
+use crate::model::{exact_det_rank_inv, vec_to_ohsl, DM};
+use crate::mon::common::*;
+use crate::rat::{CRat, Exact, Rat};
+use crate::rng::Rng;
+use crate::run::{catch, par_run, Ctx, Outcome, Report, Stats};
+use ohsl::{Cmplx, Complex, Tridiagonal, Vector};
+
+const TAG: u64 = 0xC05;
+
+#[derive(Clone, Debug)]
+pub struct Tri<T> { pub sub: Vec<T>, pub main: Vec<T>, pub sup: Vec<T> }
+
+impl<T: Copy + ohsl::Number + std::fmt::Debug> Tri<T> {
+    pub fn n(&self) -> usize { self.main.len() }
+    pub fn dense(&self) -> DM<T> {
+        let n = self.n();
+        DM::from_fn(n, n, |i, j| if i == j { self.main[i] } else if i == j + 1 { self.sub[j] } else if i + 1 == j { self.sup[i] } else { T::zero() })
+    }
+    pub fn build(&self, ctor: usize) -> Tridiagonal<T> {
+        let n = self.n();
+        match ctor {
+            0 => Tridiagonal::with_vecs(self.sub.clone(), self.main.clone(), self.sup.clone()),
+            1 => Tridiagonal::with_vectors(Vector::create(self.sub.clone()), Vector::create(self.main.clone()), Vector::create(self.sup.clone())),
+            2 => { let mut t = Tridiagonal::<T>::new(n); for i in 0..n { t[(i, i)] = self.main[i]; if i + 1 < n { t[(i + 1, i)] = self.sub[i]; t[(i, i + 1)] = self.sup[i]; } } t }
+            _ => { let mut t = Tridiagonal::<T>::with_elements(T::one(), T::one(), T::one(), n); for i in 0..n { t[(i, i)] = self.main[i]; if i + 1 < n { t[(i + 1, i)] = self.sub[i]; t[(i, i + 1)] = self.sup[i]; } } t }
+        }
+    }
+    pub fn same(&self, t: &Tridiagonal<T>) -> bool {
+        t.size() == self.n() && t.subdiagonal().vec == self.sub && t.maindiagonal().vec == self.main && t.superdiagonal().vec == self.sup
+    }
+    pub fn map(&self, f: impl Fn(T) -> T) -> Tri<T> { Tri { sub: self.sub.iter().map(|x| f(*x)).collect(), main: self.main.iter().map(|x| f(*x)).collect(), sup: self.sup.iter().map(|x| f(*x)).collect() } }
+    pub fn zip(&self, o: &Tri<T>, f: impl Fn(T, T) -> T) -> Tri<T> {
+        Tri { sub: self.sub.iter().zip(&o.sub).map(|(a, b)| f(*a, *b)).collect(), main: self.main.iter().zip(&o.main).map(|(a, b)| f(*a, *b)).collect(), sup: self.sup.iter().zip(&o.sup).map(|(a, b)| f(*a, *b)).collect() }
+    }
+}
+
+/// exact Thomas elimination on the same data: Err(step) when a zero pivot arises at `step`
+pub fn thomas_exact<E: Exact>(t: &Tri<E>, r: &[E]) -> Result<Vec<E>, usize> {
+    let n = t.n();
+    let mut beta = t.main[0];
+    if beta.is_zero_e() { return Err(0); }
+    let mut u = vec![E::zero(); n];
+    let mut gamma = vec![E::zero(); n];
+    u[0] = r[0] / beta;
+    for j in 1..n {
+        gamma[j] = t.sup[j - 1] / beta;
+        beta = t.main[j] - t.sub[j - 1] * gamma[j];
+        if beta.is_zero_e() { return Err(j); }
+        u[j] = (r[j] - t.sub[j - 1] * u[j - 1]) / beta;
+    }
+    for j in (0..n.saturating_sub(1)).rev() { let tmp = gamma[j + 1] * u[j + 1]; u[j] = u[j] - tmp; }
+    Ok(u)
+}
+
+fn refusal_ok(msg: &str) -> bool { let m = msg.to_lowercase(); m.contains("zero") || m.contains("pivot") || m.contains("singular") }
+
+fn gen_tri<E: Exact>(rng: &mut Rng, n: usize, class: u64, rv: &dyn Fn(&mut Rng) -> E) -> Tri<E> {
+    let nz = |rng: &mut Rng| { let v = rv(rng); if v.is_zero_e() { E::from_int(2) } else { v } };
+    let mut t = Tri { sub: (0..n - 1).map(|_| nz(rng)).collect(), main: (0..n).map(|_| nz(rng)).collect(), sup: (0..n - 1).map(|_| nz(rng)).collect() };
+    match class {
+        0 => {}
+        1 => { for v in t.sub.iter_mut() { if rng.chance(0.4) { *v = E::zero(); } } for v in t.sup.iter_mut() { if rng.chance(0.4) { *v = E::zero(); } } }
+        2 => { // zero pivot forced at a chosen step j (possibly the first)
+            let j = rng.usize(0, n - 1);
+            if j == 0 { t.main[0] = E::zero(); } else {
+                // run the recurrence up to j-1 and set main[j] = sub[j-1]*sup[j-1]/beta_{j-1}
+                let mut beta = t.main[0]; let mut ok = !beta.is_zero_e();
+                for k in 1..j { if !ok { break; } beta = t.main[k] - t.sub[k - 1] * t.sup[k - 1] / beta; ok = !beta.is_zero_e(); }
+                if ok { t.main[j] = t.sub[j - 1] * t.sup[j - 1] / beta; }
+            }
+        }
+        3 => { for v in t.main.iter_mut() { if rng.chance(0.3) { *v = E::zero(); } } }
+        _ => { for v in t.sub.iter_mut() { *v = E::zero(); } if rng.bool() { for v in t.sup.iter_mut() { *v = E::zero(); } } }
+    }
+    t
+}
+
+fn judge_exact<E: Exact>(st: &mut Stats, rng: &mut Rng, class: u64, rv: &dyn Fn(&mut Rng) -> E) {
+    let n = if rng.chance(0.3) { rng.usize(1, 2) } else { rng.usize(1, 12) };
+    st.next_case();
+    let t = gen_tri::<E>(rng, n, class, rv);
+    let d = t.dense();
+    let ctor = rng.usize(0, 3);
+    let tn = E::NAME;
+    let desc = || format!("T={} n={} ctor={} sub={:?} main={:?} sup={:?}", tn, n, ["with_vecs", "with_vectors", "new+index", "with_elements+index"][ctor], t.sub, t.main, t.sup);
+    let m = match catch(|| t.build(ctor)) { Outcome::Ok(m) => m, o => { st.violation(&format!("C05:construct:{}:panic", tn), format!("{}; {}", o.describe(), desc())); return; } };
+    st.eval();
+    if !t.same(&m) { st.violation(&format!("C05:construct:{}:wrong-diagonals", tn), desc()); return; }
+    // element access everywhere
+    st.eval();
+    for i in 0..n { for j in 0..n {
+        let r = catch(|| m[(i, j)]);
+        let band = (i as isize - j as isize).abs() <= 1;
+        if band { if !matches!(r, Outcome::Ok(v) if v == d.a[i][j]) { st.violation(&format!("C05:index:{}:wrong-value", tn), format!("T[({},{})] = {:?} expected {:?}; {}", i, j, r, d.a[i][j], desc())); } }
+        else if !r.is_panic() { st.violation(&format!("C05:index:{}:outside-band-accepted", tn), format!("T[({},{})] returned {:?}; {}", i, j, r, desc())); }
+    } }
+    // convert / transpose / det
+    st.eval();
+    match catch(|| m.convert()) { Outcome::Ok(x) => if !d.eq_ohsl(&x) { st.violation(&format!("C05:convert:{}:wrong-result", tn), desc()); }, o => st.violation(&format!("C05:convert:{}:panic", tn), format!("{}; {}", o.describe(), desc())) }
+    let tt = Tri { sub: t.sup.clone(), main: t.main.clone(), sup: t.sub.clone() };
+    st.eval();
+    match catch(|| m.transpose()) { Outcome::Ok(x) => if !tt.same(&x) { st.violation(&format!("C05:transpose:{}:wrong-result", tn), desc()); }, o => st.violation(&format!("C05:transpose:{}:panic", tn), format!("{}; {}", o.describe(), desc())) }
+    st.eval();
+    match catch(|| { let mut x = m.clone(); x.transpose_in_place(); x }) { Outcome::Ok(x) => if !tt.same(&x) { st.violation(&format!("C05:transpose_in_place:{}:wrong-result", tn), desc()); }, o => st.violation(&format!("C05:transpose_in_place:{}:panic", tn), format!("{}; {}", o.describe(), desc())) }
+    if let Outcome::Ok((det, _, _)) = catch(|| exact_det_rank_inv(&d)) {
+        st.eval();
+        match catch(|| m.det()) { Outcome::Overflow => st.count("skipped:rat-overflow"), Outcome::Ok(x) => if x != det { st.violation(&format!("C05:det:{}:wrong-value", tn), format!("det = {:?} exact {:?}; {}", x, det, desc())); }, o => st.violation(&format!("C05:det:{}:panic", tn), format!("{}; {}", o.describe(), desc())) }
+    }
+    // product
+    let v: Vec<E> = (0..n).map(|_| rv(rng)).collect();
+    let want = d.mulvec(&v);
+    let vv = vec_to_ohsl(&v);
+    st.eval();
+    match catch(|| &m * &vv) { Outcome::Overflow => st.count("skipped:rat-overflow"), Outcome::Ok(p) => if p.vec != want { st.violation(&format!("C05:mulvec:{}:wrong-value", tn), format!("T*v = {:?} expected {:?}; v={:?}; {}", p.vec, want, v, desc())); }, o => st.violation(&format!("C05:mulvec:{}:panic-n{}", tn, if n == 1 { "1" } else { "ge2" }), format!("&T*&v {}; v={:?}; {}", o.describe(), v, desc())) }
+    st.eval();
+    match catch(|| m.clone() * vv.clone()) { Outcome::Overflow => {}, Outcome::Ok(p) => if p.vec != want { st.violation(&format!("C05:mulvec-owned:{}:wrong-value", tn), desc()); }, o => st.violation(&format!("C05:mulvec-owned:{}:panic-n{}", tn, if n == 1 { "1" } else { "ge2" }), format!("T*v {}; {}", o.describe(), desc())) }
+    // solve: exact or refuse
+    let r: Vec<E> = (0..n).map(|_| rv(rng)).collect();
+    let rr = vec_to_ohsl(&r);
+    if let Outcome::Ok(model) = catch(|| thomas_exact(&t, &r)) {
+        st.eval();
+        let out = catch(|| m.solve(&rr));
+        match (&model, out) {
+            (_, Outcome::Overflow) => st.count("skipped:rat-overflow"),
+            (Ok(x), Outcome::Ok(y)) => {
+                let tx_ok = matches!(catch(|| d.mulvec(&y.vec)), Outcome::Ok(p) if p == r);
+                if y.vec != *x || !tx_ok { st.violation(&format!("C05:solve:{}:wrong-solution", tn), format!("solve = {:?} exact {:?}; r={:?}; {}", y.vec, x, r, desc())); }
+                st.count(&format!("solve:{}:solved", tn));
+            }
+            (Ok(x), o) => st.violation(&format!("C05:solve:{}:refused-without-zero-pivot", tn), format!("solve {} but elimination meets no zero pivot (solution {:?}); r={:?}; {}", o.describe(), x, r, desc())),
+            (Err(step), Outcome::Ok(y)) => st.violation(&format!("C05:solve:{}:returned-despite-zero-pivot", tn), format!("zero pivot at step {} but solve returned {:?}; r={:?}; {}", step, y.vec, r, desc())),
+            (Err(step), Outcome::Panic { msg, loc }) => {
+                st.count(&format!("solve:{}:refused", tn));
+                st.set_insert(&format!("zero-pivot-steps:{}", tn), format!("n{}@{}", n, step));
+                if !refusal_ok(&msg) { st.violation(&format!("C05:solve:{}:refusal-message", tn), format!("zero pivot at step {}: panic message '{}' at {} does not name a zero pivot; {}", step, msg, loc, desc())); }
+            }
+            (Err(_), Outcome::Budget) => {}
+        }
+        if !t.same(&m) { st.violation(&format!("C05:solve:{}:mutated-matrix", tn), desc()); }
+    }
+    // arithmetic forms
+    let o = gen_tri::<E>(rng, n, 0, rv);
+    let om = o.build(0);
+    let s = { let x = rv(rng); if x.is_zero_e() { E::from_int(3) } else { x } };
+    let mut chk = |st: &mut Stats, name: &str, out: Outcome<Tridiagonal<E>>, want: Tri<E>| {
+        st.eval();
+        match out { Outcome::Overflow => st.count("skipped:rat-overflow"), Outcome::Ok(x) => if !want.same(&x) { st.violation(&format!("C05:{}:{}:wrong-result", name, tn), format!("{} other sub={:?} main={:?} sup={:?} s={:?}; {}", name, o.sub, o.main, o.sup, s, desc())); }, oo => st.violation(&format!("C05:{}:{}:panic", name, tn), format!("{} {}; {}", name, oo.describe(), desc())) }
+    };
+    chk(st, "neg", catch(|| -m.clone()), t.map(|a| -a));
+    chk(st, "add", catch(|| m.clone() + om.clone()), t.zip(&o, |a, b| a + b));
+    chk(st, "sub", catch(|| m.clone() - om.clone()), t.zip(&o, |a, b| a - b));
+    chk(st, "mul-scalar", catch(|| m.clone() * s), t.map(|a| a * s));
+    chk(st, "div-scalar", catch(|| m.clone() / s), t.map(|a| a / s));
+    chk(st, "add_assign", catch(|| { let mut x = m.clone(); x += s; x }), t.map(|a| a + s));
+    chk(st, "sub_assign", catch(|| { let mut x = m.clone(); x -= s; x }), t.map(|a| a - s));
+    chk(st, "mul_assign", catch(|| { let mut x = m.clone(); x *= s; x }), t.map(|a| a * s));
+    chk(st, "div_assign", catch(|| { let mut x = m.clone(); x /= s; x }), t.map(|a| a / s));
+    let n2 = rng.usize(1, 12);
+    chk(st, "resize", catch(|| { let mut x = m.clone(); x.resize(n2); x }), Tri { sub: vec![E::zero(); n2 - 1], main: vec![E::zero(); n2], sup: vec![E::zero(); n2 - 1] });
+    st.count(&format!("cases:{}:n{}", tn, n));
+    let mut h = hash_str(tn) ^ class;
+    for x in t.sub.iter().chain(&t.main).chain(&t.sup) { h = hmix(h, x.hash_u64()); }
+    st.nontrivial(h);
+    st.sample(|| desc());
+}
+
+/// conj() on Tridiagonal<Complex<Rat>> (real generic code) vs model
+fn judge_conj(st: &mut Stats, rng: &mut Rng) {
+    let n = rng.usize(1, 8);
+    st.next_case();
+    let g = |rng: &mut Rng| Complex::<Rat>::new(Rat::int(rng.int(-9, 9)), Rat::int(rng.int(-9, 9)));
+    let sub: Vec<Complex<Rat>> = (0..n - 1).map(|_| g(rng)).collect();
+    let main: Vec<Complex<Rat>> = (0..n).map(|_| g(rng)).collect();
+    let sup: Vec<Complex<Rat>> = (0..n - 1).map(|_| g(rng)).collect();
+    let t = Tridiagonal::with_vecs(sub.clone(), main.clone(), sup.clone());
+    st.eval();
+    match catch(|| t.conj()) {
+        Outcome::Ok(c) => {
+            let cj = |v: &Vec<Complex<Rat>>| v.iter().map(|z| Complex::new(z.real, -z.imag)).collect::<Vec<_>>();
+            if c.subdiagonal().vec != cj(&sub) || c.maindiagonal().vec != cj(&main) || c.superdiagonal().vec != cj(&sup) || c.size() != n { st.violation("C05:conj:Complex<Rat>:wrong-result", format!("sub={:?} main={:?} sup={:?}", sub, main, sup)); }
+            if t.subdiagonal().vec != sub || t.maindiagonal().vec != main || t.superdiagonal().vec != sup { st.violation("C05:conj:Complex<Rat>:mutated", format!("main={:?}", main)); }
+        }
+        o => st.violation("C05:conj:Complex<Rat>:panic", o.describe()),
+    }
+}
+
+fn judge_f64(st: &mut Stats, rng: &mut Rng) {
+    let n = if rng.chance(0.3) { rng.usize(1, 2) } else { rng.usize(1, 12) };
+    st.next_case();
+    if rng.bool() {
+        // (a) exactly representable elimination: T = L*U, L unit lower bidiagonal (integer l), U upper bidiagonal with
+        // power-of-two diagonal (possibly zero at one step) => f64 Thomas is exact and must mirror the Rat model
+        let l: Vec<i64> = (0..n - 1).map(|_| rng.int(-3, 3)).collect();
+        let mut ud: Vec<i64> = (0..n).map(|_| { let p = 1i64 << rng.int(0, 3); if rng.bool() { p } else { -p } }).collect();
+        let uu: Vec<i64> = (0..n - 1).map(|_| rng.int(-3, 3)).collect();
+        let zero_at = if rng.chance(0.4) { Some(rng.usize(0, n - 1)) } else { None };
+        if let Some(z) = zero_at { ud[z] = 0; }
+        // T[i][i] = ud[i] + l[i-1]*uu[i-1]; T[i+1][i] = l[i]*ud[i]; T[i][i+1] = uu[i]
+        let main: Vec<i64> = (0..n).map(|i| ud[i] + if i > 0 { l[i - 1] * uu[i - 1] } else { 0 }).collect();
+        let sub: Vec<i64> = (0..n - 1).map(|i| l[i] * ud[i]).collect();
+        let tr = Tri { sub: sub.iter().map(|x| Rat::int(*x)).collect(), main: main.iter().map(|x| Rat::int(*x)).collect(), sup: uu.iter().map(|x| Rat::int(*x)).collect() };
+        let tf = Tri { sub: sub.iter().map(|x| *x as f64).collect::<Vec<f64>>(), main: main.iter().map(|x| *x as f64).collect(), sup: uu.iter().map(|x| *x as f64).collect() };
+        // right-hand side chosen as T*x for a small dyadic x so that the exact solution is representable
+        let xs: Vec<i64> = (0..n).map(|_| rng.int(-8, 8)).collect();
+        let xr: Vec<Rat> = xs.iter().map(|x| Rat::int(*x)).collect();
+        let rr = tr.dense().mulvec(&xr);
+        let rf: Vec<f64> = rr.iter().map(|x| x.to_f64()).collect();
+        let desc = || format!("T=f64(exact class) n={} sub={:?} main={:?} sup={:?} r={:?}", n, tf.sub, tf.main, tf.sup, rf);
+        let m = tf.build(rng.usize(0, 3));
+        let model = thomas_exact(&tr, &rr);
+        st.eval();
+        match (model, catch(|| m.solve(&Vector::create(rf.clone())))) {
+            (Ok(x), Outcome::Ok(y)) => { let xe: Vec<f64> = x.iter().map(|v| v.to_f64()).collect(); if y.vec != xe { st.violation("C05:solve:f64:exact-class-wrong", format!("solve = {:?} exact {:?}; {}", y.vec, xe, desc())); } st.count("solve:f64:exact-solved"); }
+            (Ok(_), o) => st.violation("C05:solve:f64:refused-without-zero-pivot", format!("{}; {}", o.describe(), desc())),
+            (Err(step), Outcome::Ok(y)) => st.violation("C05:solve:f64:returned-despite-zero-pivot", format!("zero pivot at step {} but solve returned {:?}; {}", step, y.vec, desc())),
+            (Err(step), Outcome::Panic { msg, .. }) => { st.count("solve:f64:exact-refused"); if !refusal_ok(&msg) { st.violation("C05:solve:f64:refusal-message", format!("step {} message '{}'; {}", step, msg, desc())); } }
+            _ => {}
+        }
+        // product and det on integer data are exact
+        let v: Vec<f64> = (0..n).map(|_| rng.int(-9, 9) as f64).collect();
+        let d = tf.dense();
+        let want = d.mulvec(&v);
+        st.eval();
+        match catch(|| &m * &Vector::create(v.clone())) { Outcome::Ok(p) => if p.vec != want { st.violation("C05:mulvec:f64:wrong-value", format!("T*v={:?} expected {:?} v={:?}; {}", p.vec, want, v, desc())); }, o => st.violation(&format!("C05:mulvec:f64:panic-n{}", if n == 1 { "1" } else { "ge2" }), format!("{}; {}", o.describe(), desc())) }
+        if let Outcome::Ok((det, _, _)) = catch(|| exact_det_rank_inv(&tr.dense())) {
+            st.eval();
+            match catch(|| m.det()) { Outcome::Ok(x) => if x != det.to_f64() { st.violation("C05:det:f64:wrong-value", format!("det={} exact {:?}; {}", x, det, desc())); }, o => st.violation("C05:det:f64:panic", format!("{}; {}", o.describe(), desc())) }
+        }
+        // f64 * Tridiagonal
+        st.eval();
+        match catch(|| 2.0 * m.clone()) { Outcome::Ok(x) => if !tf.map(|a| 2.0 * a).same(&x) { st.violation("C05:f64*T:wrong-result", desc()); }, o => st.violation("C05:f64*T:panic", format!("{}; {}", o.describe(), desc())) }
+        let mut h = hash_str("f64-exact"); for x in sub.iter().chain(&main).chain(&uu) { h = hmix(h, *x as u64); }
+        st.nontrivial(h);
+    } else {
+        // (b) strictly diagonally dominant random systems: backward stable
+        let sub: Vec<f64> = (0..n - 1).map(|_| rng.sym()).collect();
+        let sup: Vec<f64> = (0..n - 1).map(|_| rng.sym()).collect();
+        let main: Vec<f64> = (0..n).map(|i| { let s = if i > 0 { sub[i - 1].abs() } else { 0.0 } + if i + 1 < n { sup[i].abs() } else { 0.0 }; (s + rng.range(0.05, 1.0)) * if rng.bool() { 1.0 } else { -1.0 } }).collect();
+        let sc = rng.logpos(1e-6, 1e6);
+        let tf = Tri { sub: sub.iter().map(|x| x * sc).collect::<Vec<f64>>(), main: main.iter().map(|x| x * sc).collect(), sup: sup.iter().map(|x| x * sc).collect() };
+        let r: Vec<f64> = (0..n).map(|_| rng.sym() * rng.logpos(1e-3, 1e3)).collect();
+        let desc = || format!("T=f64(dominant) n={} sub={:?} main={:?} sup={:?} r={:?}", n, tf.sub, tf.main, tf.sup, r);
+        let m = tf.build(rng.usize(0, 1));
+        st.eval();
+        match catch(|| m.solve(&Vector::create(r.clone()))) {
+            Outcome::Ok(x) => {
+                let a = tf.dense().a;
+                let (res, an, xn, bn) = fl::residual_real(&a, &x.vec, &r);
+                let eta = fl::backward_error(res, an, xn, bn);
+                let tol = 64.0 * n as f64 * U;
+                st.max("f64:dominant_eta_over_tol", eta / tol);
+                if x.vec.len() != n || !fl::all_finite(&x.vec) || !(eta <= tol) { st.violation("C05:solve:f64:backward-error", format!("eta {:e} > {:e}; x={:?}; {}", eta, tol, x.vec, desc())); }
+            }
+            o => st.violation("C05:solve:f64:refused-dominant", format!("{}; {}", o.describe(), desc())),
+        }
+        let mut h = hash_str("f64-dom"); for x in tf.sub.iter().chain(&tf.main).chain(&tf.sup) { h = hmix(h, x.to_bits()); }
+        st.nontrivial(h);
+    }
+    st.count("cases:f64");
+}
+
+fn judge_cmplx(st: &mut Stats, rng: &mut Rng) {
+    let n = if rng.chance(0.3) { rng.usize(1, 2) } else { rng.usize(1, 12) };
+    st.next_case();
+    let z = |rng: &mut Rng| Cmplx::new(rng.sym(), rng.sym());
+    let sub: Vec<Cmplx> = (0..n - 1).map(|_| z(rng)).collect();
+    let sup: Vec<Cmplx> = (0..n - 1).map(|_| z(rng)).collect();
+    let main: Vec<Cmplx> = (0..n).map(|i| { let s = if i > 0 { fl::cabs(sub[i - 1]) } else { 0.0 } + if i + 1 < n { fl::cabs(sup[i]) } else { 0.0 }; Cmplx::polar(s + rng.range(0.05, 1.0), rng.range(-3.1, 3.1)) }).collect();
+    let tf = Tri { sub, main, sup };
+    let r: Vec<Cmplx> = (0..n).map(|_| z(rng)).collect();
+    let desc = || format!("T=Cmplx(dominant) n={} sub={:?} main={:?} sup={:?} r={:?}", n, tf.sub, tf.main, tf.sup, r);
+    let m = tf.build(rng.usize(0, 3));
+    st.eval();
+    match catch(|| m.solve(&Vector::create(r.clone()))) {
+        Outcome::Ok(x) => {
+            let a = tf.dense().a;
+            let (res, an, xn, bn) = fl::residual_cmplx(&a, &x.vec, &r);
+            let eta = fl::backward_error(res, an, xn, bn);
+            let tol = 64.0 * n as f64 * U;
+            st.max("Cmplx:dominant_eta_over_tol", eta / tol);
+            if x.vec.len() != n || !fl::all_finite_c(&x.vec) || !(eta <= tol) { st.violation("C05:solve:Cmplx:backward-error", format!("eta {:e} > {:e}; x={:?}; {}", eta, tol, x.vec, desc())); }
+        }
+        o => st.violation("C05:solve:Cmplx:refused-dominant", format!("{}; {}", o.describe(), desc())),
+    }
+    // conj on Cmplx
+    st.eval();
+    match catch(|| m.conj()) { Outcome::Ok(c) => { let want = Tri { sub: tf.sub.iter().map(|z| z.conj()).collect::<Vec<_>>(), main: tf.main.iter().map(|z| z.conj()).collect(), sup: tf.sup.iter().map(|z| z.conj()).collect() }; if !want.same(&c) { st.violation("C05:conj:Cmplx:wrong-result", desc()); } } o => st.violation("C05:conj:Cmplx:panic", format!("{}; {}", o.describe(), desc())) }
+    // product vs dense twin (tolerance 8u relative to sum |a||v|)
+    let v: Vec<Cmplx> = (0..n).map(|_| z(rng)).collect();
+    st.eval();
+    match catch(|| &m * &Vector::create(v.clone())) {
+        Outcome::Ok(p) => { let d = tf.dense(); for i in 0..n { let mut s = fl::CDD::ZERO; let mut mag = 0.0; for j in 0..n { s = s + fl::CDD::from(d.a[i][j]) * fl::CDD::from(v[j]); mag += fl::cabs(d.a[i][j]) * fl::cabs(v[j]); } if p.vec.len() != n || !((fl::CDD::from(p.vec[i]) - s).abs() <= 16.0 * U * mag) { st.violation("C05:mulvec:Cmplx:wrong-value", format!("row {} v={:?}; {}", i, v, desc())); break; } } }
+        o => st.violation(&format!("C05:mulvec:Cmplx:panic-n{}", if n == 1 { "1" } else { "ge2" }), format!("{}; {}", o.describe(), desc())),
+    }
+    st.count("cases:Cmplx");
+    let mut h = hash_str("Cmplx"); for x in tf.main.iter() { h = hmix(h, x.real.to_bits()); }
+    st.nontrivial(h);
+}
+
+pub fn run(ctx: &Ctx) -> Report {
+    let units = ctx.vol(2000, 60_000);
+    let stats = par_run(ctx, TAG, units, |u, rng, st| {
+        let class = u % 5;
+        for _ in 0..6 {
+            judge_exact::<Rat>(st, rng, class, &|r| if r.chance(0.15) { Rat::new(r.int(-9, 9) as i128, r.int(1, 4) as i128) } else { Rat::int(r.int(-9, 9)) });
+            judge_exact::<CRat>(st, rng, class, &|r| CRat::new(Rat::int(r.int(-5, 5)), Rat::int(r.int(-5, 5))));
+            judge_f64(st, rng);
+            judge_cmplx(st, rng);
+            judge_conj(st, rng);
+        }
+    });
+    let mut rep = Report::new(stats,
+        "random tridiagonal matrices n=1..12 (n=1,2 weighted x10) over Rat, CRat, f64, Complex<f64>, built through all four constructors; classes: generic nonzero, zero sub/super entries, zero pivot forced at a chosen elimination step (every step seen: see zero-pivot-steps sets), zero main entries, triangular. Per case: every (i,j) access, convert, transpose (both), det, &T*&v and T*v, solve vs exact Thomas model (solution or refusal + message), 10 arithmetic/resize forms; f64: exactly representable L*U class mirrored against the Rat model, strictly dominant class by backward error. Every case non-trivial; distinct = distinct (type,class,diagonals) hashes");
+    rep.assumptions = vec!["refusal message accepted if it matches /zero|pivot|singular/i".into(), "f64 dominant systems: backward error <= 64*n*u".into()];
+    rep.min_nontrivial = 2000;
+    rep
 }
